@@ -896,9 +896,9 @@ def gen_c12(rng: random.Random, kind: str, P: Optional[dict] = None) -> dict:
     P = {**DEFAULT_P, **(P or {})}
     g = _Gen(rng, P)
     if kind == "free":
-        kind = rng.choice(["basic", "basic", "method1", "methodN", "nested", "two", "chain", "deep", "guardcall"])
+        kind = rng.choice(["basic", "basic", "method1", "methodN", "nested", "two", "chain", "deep", "guardcall", "three"])
     if kind == "nested":
-        g.P = {**P, "p_nest": 0.9, "max_nest": rng.choice([1, 1, 2])}
+        g.P = {**P, "p_nest": 0.9, "max_nest": rng.choice([1, 2]), "n_branches": [1, 2, 2, 3]}
     else:
         g.P = {**P, "p_nest": 0.12}
     if kind == "chain":
@@ -907,6 +907,23 @@ def gen_c12(rng: random.Random, kind: str, P: Optional[dict] = None) -> dict:
         _gen_deep(g, rng, P)
     elif kind == "guardcall":
         _gen_guardcall(g, rng, P)
+    elif kind == "three":
+        # three condition() blocks in one body: every merged transaction joins four bodies (at most one of the
+        # conditions has priority: two priority conditions in one body are rejected)
+        g.P = {**g.P, "p_nest": 0.0, "n_branches": [1, 2, 2]}
+        blk = g.calls(0, 1, 0.2)
+        prio_used = False
+        for _ in range(3):
+            c = g.cond(0, allow_prio=not prio_used)
+            prio_used = prio_used or bool(c["prio"])
+            blk.insert(rng.randint(0, len(blk)), c)
+        if rng.random() < 0.6:
+            g.items.append({"k": "trans", "name": g.tname(), "ready": g.maybe_inp(P["p_parent_ready"]), "block": blk})
+        else:
+            mn = g.mname()
+            g.items.append({"k": "method", "name": mn, "ready": g.maybe_inp(0.5), "nx": 0, "block": blk})
+            g.items.append({"k": "trans", "name": g.tname(), "ready": g.maybe_inp(P["p_parent_ready"]),
+                            "block": [{"k": "call", "m": mn, "en": g.maybe_inp(0.4), "arg": None}]})
     elif kind in ("basic", "nested", "two"):
         blk = g.calls(0, 2, 0.2)
         blk.insert(rng.randint(0, len(blk)), g.cond(0))
